@@ -2,8 +2,9 @@
 //! Requests:
 //!   rbf_p form var ls n x1 y1 … xn yn              -> = k1 … kn      (scalar forward on each pair)
 //!   rq_p  form var alpha ls n x1 y1 … xn yn        -> = k1 … kn
-//!   rbf_m kind var ls rx cx <rx*cx> ry cy <ry*cy>  -> = nrows ncols <data>
-//!   rq_m  kind var alpha ls rx cx <..> ry cy <..>  -> = nrows ncols <data>
+//!   rbf_m kind var ls rx cx <rx*cx> ry cy <ry*cy>  -> = nrows ncols <data> <scalar forward at (x_i, y_j), row-major>
+//!   rq_m  kind var alpha ls rx cx <..> ry cy <..>  -> = nrows ncols <data> <scalar forward at (x_i, y_j), row-major>
+//! (the scalar values use the f64 impl for even kinds and the &f64 impl for odd kinds)
 //! form ∈ {0: f64, 1: &f64}; kind ∈ {0: Vector, 1: &Vector, 2: Matrix, 3: &Matrix}.
 use compute::prelude::{Kernel, Matrix, RBFKernel, RQKernel, Vector};
 use cvexec::*;
@@ -48,6 +49,7 @@ macro_rules! matrix_forms {
     ($k:expr, $kind:expr, $x:expr, $y:expr) => {{
         let (rx, cx, dx) = $x;
         let (ry, cy, dy) = $y;
+        let (px, py) = (dx.clone(), dy.clone());
         let m: Matrix = match $kind {
             0 => $k.forward(Vector::from(dx), Vector::from(dy)),
             1 => {
@@ -61,7 +63,19 @@ macro_rules! matrix_forms {
             }
             _ => return Err(BadOp),
         };
-        Ok(ok(format!("{} {} {}", m.nrows, m.ncols, show_fs(&m.data))))
+        let mut all: Vec<f64> = m.data.to_vec();
+        for &a in px.iter() {
+            for &b in py.iter() {
+                let v: f64 = if $kind % 2 == 0 { $k.forward(a, b) } else { $k.forward(&a, &b) };
+                all.push(v);
+            }
+        }
+        let mut s = format!("{} {}", m.nrows, m.ncols);
+        if !all.is_empty() {
+            s.push(' ');
+            s.push_str(&show_fs(&all));
+        }
+        Ok(ok(s))
     }};
 }
 
